@@ -72,10 +72,12 @@ DECL = {
     "pc_pc_char": "const char *const *{n}", "p_td_int": "td_int *{n}",
     "a4_int": "int {n}[4]", "ac_char": "const char {n}[]", "a2_S8m": "struct S8m {n}[2]",
     "ac3_double": "const double {n}[3]", "a2x3_int": "int {n}[2][3]",
-    "cb_i_i": "int (*{n})(int)", "cb_l_sd": "long (*{n})(short, double)",
+    # function pointers in the three spellings C has for them: the declarator in place, a pointer to a typedef
+    # of the function TYPE (zlib / OpenSSL style), a typedef of the pointer type - all the same type
+    "cb_i_i": "int (*{n})(int)", "cb_l_sd": "fnty_l_sd *{n}",
     "cb_v_S16id": "void (*{n})(struct S16id)",
     "cb_S8m_ucpf": "struct S8m (*{n})(unsigned char, const char *, float)",
-    "cb_d_v": "double (*{n})(void)", "g4_int": "int {n}[4]", "void": "void {n}",
+    "cb_d_v": "fnptr_d_v {n}", "g4_int": "int {n}[4]", "void": "void {n}",
 }
 # the type a value of an array parameter has inside the callee
 DECAY = {"a4_int": "int *{n}", "ac_char": "const char *{n}", "a2_S8m": "struct S8m *{n}",
@@ -141,6 +143,7 @@ def prelude(cross=False):
     for uid, fields in UNIONS.items():
         body = " ".join("%s %s%s;" % (C_SCALAR[t], f, "[%d]" % n if n else "") for f, t, n in fields)
         L.append("union %s { %s };" % (uid, body))
+    L += ["typedef long fnty_l_sd(short, double);", "typedef double (*fnptr_d_v)(void);"]
     return "\n".join(L) + "\n"
 
 
